@@ -42,8 +42,12 @@ class Verifier:
         self.col.functions.add(info.qualname)
         alts = [a for _, a in con.params]
         insts = con.opts.get('instances') or [con.opts.get('instance', 'scaled')]
+        import os as _os
+        if _os.environ.get('PYVC_ONLY_INSTANCE'):      # debugging aid: one arithmetic instance only
+            insts = [i for i in insts if i == _os.environ['PYVC_ONLY_INSTANCE']] or insts
+        n_insts = len(con.opts.get('instances') or [1])
         for inst, case in itertools.product(insts, itertools.product(*alts)):
-            cname = ','.join(case) + ('@' + inst if len(insts) > 1 else '')
+            cname = ','.join(case) + ('@' + inst if n_insts > 1 else '')
             self.cur_instance = inst
             try:
                 self.verify_case(info, con, case)
@@ -95,6 +99,7 @@ class Verifier:
             hk(ex)
         ex.cur_func = info
         ex.cur_props = con.props
+        ex.ledger = bool(con.opts.get('ledger'))
         cname = ','.join(case) + ('@' + ex.instance if con.opts.get('instances') else '')
         st, env = self.initial_state(ex, info, con, case)
         # map contract parameter names onto the function's parameter names (positional)
